@@ -2,7 +2,7 @@ SPECIFICATION Spec
 CONSTANTS
   MaxLen = 4
   Adaptors = {"enumerate", "reverse"}
-  Cats = {"lvalue", "const", "rvalue"}
+  Cats = {"lvalue", "const", "rvalue", "crvalue"}
   Handoffs = {"direct", "copy", "move", "assign"}
 INVARIANTS VisitsAll WritesLand NoWritesElsewhere TempOutlivesLoop Emit
 PROPERTY Terminates
